@@ -143,6 +143,7 @@ type State struct {
 	log     []Event
 	version int // bumped on any externally visible effect
 	wlog    []int // ids of cells written (stores), in order
+	logMark int   // index into log of the most recent loop cut (events before it belong to earlier iterations)
 	schemas []*schema // quantified facts valid on this path (loop invariants, callee postconditions)
 	written map[*Cell]bool
 }
@@ -161,6 +162,7 @@ func (s *State) fork() *State {
 		wlog:    s.wlog[:len(s.wlog):len(s.wlog)],
 		schemas: s.schemas[:len(s.schemas):len(s.schemas)],
 		version: s.version,
+		logMark: s.logMark,
 	}
 	for k, v := range s.store {
 		n.store[k] = v
@@ -393,6 +395,9 @@ func iteValue(c *Term, a, b Value) (Value, bool) {
 		y, ok := b.(*Ptr)
 		if ok && x.cell == y.cell && pathEq(x.path, y.path) && x.sym == y.sym {
 			return x, true
+		}
+		if ok && x.cell != nil && x.cell == y.cell && pathEq(x.path, y.path) && x.sym != nil && y.sym != nil {
+			return &Ptr{cell: x.cell, path: x.path, sym: mkIte(c, x.sym, y.sym)}, true
 		}
 		return nil, false
 	case *Iface:
